@@ -25,6 +25,15 @@ var VerifDir = func() string {
 	return "/verif"
 }()
 
+// OutDir is where evidence and replays are written (VERIF_OUT; default VerifDir). Used to try the checks
+// against a scratch copy of the repository without touching the committed evidence.
+var OutDir = func() string {
+	if d := os.Getenv("VERIF_OUT"); d != "" {
+		return d
+	}
+	return VerifDir
+}()
+
 // Seed returns VERIF_SEED (default 1).
 func Seed() int64 {
 	if s := os.Getenv("VERIF_SEED"); s != "" {
@@ -299,7 +308,7 @@ func (r *Run) Inconclusive(what string) {
 // Violation saves a replay directory and prints the VIOLATION line. files: name -> content.
 func (r *Run) Violation(sig string, what string, files map[string]string) {
 	h := sha256.Sum256([]byte(sig))
-	dir := filepath.Join(VerifDir, "replays", r.ID, hex.EncodeToString(h[:6]))
+	dir := filepath.Join(OutDir, "replays", r.ID, hex.EncodeToString(h[:6]))
 	_ = os.MkdirAll(dir, 0o755)
 	files["WHAT.txt"] = fmt.Sprintf("property=%s\nsig=%s\n%s\nseed=%d tier=%s\n", r.ID, sig, what, r.SeedV, r.Tier)
 	for name, content := range files {
@@ -361,8 +370,8 @@ func (r *Run) Finish(level string, rule string) {
 		}
 	}
 	data, _ := json.MarshalIndent(ev, "", " ")
-	_ = os.MkdirAll(filepath.Join(VerifDir, "evidence"), 0o755)
-	if err := os.WriteFile(filepath.Join(VerifDir, "evidence", r.ID+".json"), data, 0o644); err != nil {
+	_ = os.MkdirAll(filepath.Join(OutDir, "evidence"), 0o755)
+	if err := os.WriteFile(filepath.Join(OutDir, "evidence", r.ID+".json"), data, 0o644); err != nil {
 		fmt.Fprintf(os.Stderr, "cannot write evidence: %v\n", err)
 	}
 	fmt.Printf("SUMMARY property=%s tier=%s seed=%d evaluations=%d distinct_nontrivial=%d inconclusive=%d violations=%d wall=%.0fs\n",
